@@ -367,9 +367,22 @@ fn drop_by_unwinding<G>(g: G) {
 }
 
 /// a hand-written function returning a boxed future, instrumented with `#[trace]`
-#[fastrace::trace(name = "traced-boxed-fn")]
-pub fn traced_boxed(inner: crate::adapters::ScriptedFuture) -> std::pin::Pin<Box<dyn std::future::Future<Output = u32> + Send>> {
-    Box::pin(async move { inner.await })
+#[fastrace::trace(name = "traced-boxed-fn", properties = { "tbx": "{x:?}" })]
+pub fn traced_boxed(inner: crate::adapters::ScriptedFuture, x: BoxedArg) -> std::pin::Pin<Box<dyn std::future::Future<Output = u32> + Send>> {
+    Box::pin(async move {
+        let _keep = &x;
+        inner.await
+    })
+}
+
+/// argument of `traced_boxed`: counts how often the property expression of the attribute formats it
+pub static BOXED_DEBUG_CALLS: AtomicU64 = AtomicU64::new(0);
+pub struct BoxedArg(pub u32);
+impl std::fmt::Debug for BoxedArg {
+    fn fmt(&self, f: &mut std::fmt::Formatter<'_>) -> std::fmt::Result {
+        BOXED_DEBUG_CALLS.fetch_add(1, Ordering::SeqCst);
+        write!(f, "BA({})", self.0)
+    }
 }
 
 thread_local! {
